@@ -79,10 +79,11 @@ import GqlModel.Validate.Spec.Links
   `C09_links_correct_parsed_loaded` is the capstone for a document PARSED from a source text against
   a schema that `load` returned: operation kinds, distinct fragment positions (parser), closedness and
   the `String` type (loader) are discharged; what is left is validity, `Spec.wellParented`, the
-  prelude being part of the schema document and the recorded non-object-root finding.
+  prelude being part of the schema document (the former non-object-root hypothesis is an invariant of
+  `load` since the repair of the root kinds).
   `C09_wellParented_of_valid` then derives `Spec.wellParented` from validity, and
   `C09_links_correct_sources` is the statement over schema and query SOURCE TEXTS with nothing left but
-  the prelude and the non-object-root finding.
+  the prelude.
 -/
 open Gql Gql.Validate Gql.Validate.Rules
 
@@ -641,11 +642,9 @@ theorem C09_links_correct_of_valid (s : Schema) (d : QueryDoc) (evs : List Event
     shows an admissible candidate and every demanded link is present.  Discharged from the models:
     operation kinds and distinct fragment positions (parser), `Closed s` and the `String` type
     (loader), KnownRootType / KnownTypeNames (validity).  Left: `Spec.wellParented s d` (every document
-    that validates is such, not yet derived), the prelude being part of `sd`, and the recorded
-    non-object-root finding (`rootTypesAreObjects`; only "the query root is not an input object" is
-    used). -/
+    that validates is such, not yet derived) and the prelude being part of `sd`. -/
 theorem C09_links_correct_parsed_loaded {sd : SchemaDoc} {s : Schema} (hl : Gql.Load.load sd = .ok s)
-    (hprel : PreludeDeclared sd) (hroots : Gql.Spec.rootTypesAreObjects s = true)
+    (hprel : PreludeDeclared sd)
     {L : Nat} {inp : Bytes} {d : QueryDoc} (hp : Parser.parseQuery L inp = .ok d)
     (evs : List Event) (hw : walkDoc s.view d = some evs)
     (hvalid : validate defaultRules s d = .ok []) (hwp : Spec.wellParented s d = true) :
@@ -657,8 +656,7 @@ theorem C09_links_correct_parsed_loaded {sd : SchemaDoc} {s : Schema} (hl : Gql.
         varText (e.links.varDef p.start) ∈ cands raw) ∧
     (∀ dm ∈ docDemands s d, dm.Present s d) :=
   C09_links_correct_of_valid s d evs hw hvalid
-    (Gql.EndToEnd.loaded_closed hl (Gql.EndToEnd.preludeDeclared_introspection hprel)
-      (Gql.EndToEnd.queryRootNotKind_of_rootsObjects hl hroots (by decide)))
+    (Gql.EndToEnd.loaded_closed hl (Gql.EndToEnd.preludeDeclared_introspection hprel))
     (Gql.EndToEnd.loaded_hasString_of_prelude hl hprel) hwp (Gql.EndToEnd.parsed_kinds hp)
     (Gql.EndToEnd.parsed_fragPosDistinct hp)
 
@@ -690,12 +688,11 @@ theorem C09_wellParented_of_valid {s : Schema} (W : Gql.EndToEnd.WPSchema s) (hE
 /-- **C09 END TO END over source texts, `Spec.wellParented` discharged.**  The schema sources are
     well-formed UTF-8, `ParseSchemas` merges them into `sd`, `sd` loads to `s`; the query source `inp`
     parses (any token limit) to `d`; `d` validates against `s`.  Then every demanded link is met, every
-    variable use shows an admissible candidate, every demanded link is present.  Hypotheses left: the
-    prelude is among the sources (`PreludeDeclared sd`) and the recorded non-object-root finding
-    (`rootTypesAreObjects s`). -/
+    variable use shows an admissible candidate, every demanded link is present.  Hypothesis left: the
+    prelude is among the sources (`PreludeDeclared sd`). -/
 theorem C09_links_correct_sources {Ls : Nat} {srcs : List (Bool × Bytes)} {sd : SchemaDoc} {s : Schema}
     (hsrc : ∀ src ∈ srcs, Lexer.Utf8.valid src.2) (hps : Parser.parseSchemas Ls srcs = .ok sd)
-    (hl : Gql.Load.load sd = .ok s) (hprel : PreludeDeclared sd) (hroots : Gql.Spec.rootTypesAreObjects s = true)
+    (hl : Gql.Load.load sd = .ok s) (hprel : PreludeDeclared sd)
     {L : Nat} {inp : Bytes} {d : QueryDoc} (hp : Parser.parseQuery L inp = .ok d)
     (evs : List Event) (hw : walkDoc s.view d = some evs) (hvalid : validate defaultRules s d = .ok []) :
     Spec.expectedLinks s d = (docDemands s d).map (Demand.render s d) ∧
@@ -706,8 +703,8 @@ theorem C09_links_correct_sources {Ls : Nat} {srcs : List (Bool × Bytes)} {sd :
         varText (e.links.varDef p.start) ∈ cands raw) ∧
     (∀ dm ∈ docDemands s d, dm.Present s d) :=
   have T := Gql.EndToEnd.parseSchemas_treeHyps hsrc hps
-  C09_links_correct_parsed_loaded hl hprel hroots hp evs hw hvalid
-    (C09_wellParented_of_valid (Gql.EndToEnd.loaded_wpSchema hl hprel T.unions hroots)
+  C09_links_correct_parsed_loaded hl hprel hp evs hw hvalid
+    (C09_wellParented_of_valid (Gql.EndToEnd.loaded_wpSchema hl hprel T.unions)
       (Gql.EndToEnd.loaded_noEmptyTypeName hl T.names) d hvalid)
 
 #print axioms C09_wellParented_of_valid
